@@ -455,10 +455,13 @@ Definition parse_account_directive (fuel : nat) (startPos : tpos) (ps : pstate) 
   else
     let name0 := tk_val (cur ps) in
     let npos := tk_pos (cur ps) in
+    let nend0 := tk_end (cur ps) in
     let ps := adv ps in
-    let '(name, ps) :=
+    let '(name, nend, ps) :=
       if is_ty (ctype ps) TText
-      then ((match tk_val (cur ps) with [] => name0 | v => name0 ++ [32%N] ++ v end), adv ps) else (name0, ps) in
+      then ((match tk_val (cur ps) with [] => name0 | v => name0 ++ [32%N] ++ v end),
+            (match tk_val (cur ps) with [] => nend0 | _ => tk_end (cur ps) end), adv ps)
+      else (name0, nend0, ps) in
     let '(cmt, tags, ps) :=
       if is_ty (ctype ps) TComment
       then (tk_val (cur ps), parse_tags (tk_val (cur ps)) (tk_pos (cur ps)), adv ps) else ([], [], ps) in
@@ -466,24 +469,24 @@ Definition parse_account_directive (fuel : nat) (startPos : tpos) (ps : pstate) 
     match parse_subdirs fuel ps [] with
     | None => None
     | Some (sub, ps) =>
-        Some (Some (DAccount name (mkRng (zpos npos) pos0) tags cmt sub (mkRng (zpos startPos) (zpos (tk_pos (cur ps))))), ps)
+        Some (Some (DAccount name (mkRng (zpos npos) (zpos nend)) tags cmt sub (mkRng (zpos startPos) (zpos (tk_pos (cur ps))))), ps)
     end.
 
 Definition parse_commodity_directive (fuel : nat) (startPos : tpos) (ps : pstate) : option (option directive * pstate) :=
   let '(com, fmt, ps) :=
     if is_ty (ctype ps) TCommodity then
       let sym := tk_val (cur ps) in
-      let c := mkCom sym true (mkRng (zpos (tk_pos (cur ps))) pos0) in
+      let c := mkCom sym true (mkRng (zpos (tk_pos (cur ps))) (zpos (tk_end (cur ps)))) in
       let ps := adv ps in
       if is_ty (ctype ps) TNumber then (c, sym ++ tk_val (cur ps), adv ps) else (c, [], ps)
     else if is_ty (ctype ps) TNumber then
       let number := tk_val (cur ps) in
       let ps := adv ps in
       if is_ty (ctype ps) TCommodity || is_ty (ctype ps) TText
-      then (mkCom (tk_val (cur ps)) true (mkRng (zpos (tk_pos (cur ps))) pos0), number ++ [32%N] ++ tk_val (cur ps), adv ps)
+      then (mkCom (tk_val (cur ps)) true (mkRng (zpos (tk_pos (cur ps))) (zpos (tk_end (cur ps)))), number ++ [32%N] ++ tk_val (cur ps), adv ps)
       else (com0, [], ps)
     else if is_ty (ctype ps) TText then
-      (mkCom (tk_val (cur ps)) true (mkRng (zpos (tk_pos (cur ps))) pos0), [], adv ps)
+      (mkCom (tk_val (cur ps)) true (mkRng (zpos (tk_pos (cur ps))) (zpos (tk_end (cur ps)))), [], adv ps)
     else (com0, [], ps) in
   let ps := skip_until stop_nl_eof_cmt ps in
   let ps := if is_ty (ctype ps) TComment then adv ps else ps in
